@@ -612,7 +612,7 @@ void body(V::Ctx &ctx)
     const char *only = getenv("C24_ONLY"); // development aid: run one family
 
     // ---- (a) valid encodings of short bodies
-    const int N = quick ? 3 : 6;
+    const int N = quick ? 4 : 6;
     const std::vector<Cfg> wholeAll = {{65, D_EAGER}, {0, D_EAGER}, {2, D_EAGER}, {3, D_EAGER}, {5, D_EAGER}, {2, D_LAZY}, {3, D_LAZY}, {5, D_LAZY}, {65, D_LAZY},
                                        {3, D_ONE}, {5, D_ONE}, {65, D_ONE}};
     const std::vector<Cfg> splitQuick = {{65, D_EAGER}, {2, D_EAGER}, {3, D_LAZY}, {5, D_ONE}};
@@ -675,7 +675,7 @@ void body(V::Ctx &ctx)
     if (!only || !strcmp(only, "b")) {
         std::vector<int> idx;
         std::string s;
-        tokenWalk(idx, s, quick ? 3 : 4, quick ? 4 : 5, tokWhole, tokSplit);
+        tokenWalk(idx, s, quick ? 3 : 4, quick ? 5 : 6, tokWhole, tokSplit);
     }
 
     // ---- (c) every single edit of valid encodings (delete a byte, replace a byte by an edit token,
